@@ -3,7 +3,9 @@
 Under contract: the X-drop seed-extension kernels of
 sequence/align/localungapped.pyx (score-only C variant and generic variant),
 against the prefix-sum specification
-    P(0) = 0,  P(k+1) = P(k) + matrix[code1[k], code2[k]]."""
+    P(0) = 0,  P(k+1) = P(k) + matrix[code1[k], code2[k]],
+and the two table-filling kernels of sequence/align/banded.pyx on the
+straightened band table (see below)."""
 import z3
 from pyvc.api import Case, sym_int, sym_c, implies, iff
 from pyvc.core import CV, zint, zbool, simp
@@ -21,7 +23,8 @@ ASSUMPTIONS = [
 ]
 UNVERIFIED = [
     "align_local_ungapped driver: seed/offset arithmetic and reversed slices (NumPy views)",
-    "banded.pyx and localgapped.pyx (band index map, X-drop table growth): not under contract in this build",
+    "align_banded driver (band cropping, swap + transpose, get_global_trace_starts, follow_trace, trace post-processing) and localgapped.pyx (X-drop table growth): not under contract",
+    "the precondition of the banded kernels (shorter sequence first, band cropped to the table and non-empty, table width = band width + 2) is what align_banded computes before the call; that computation is not verified",
 ]
 
 
